@@ -364,7 +364,7 @@ func init() {
 				},
 			},
 			{
-				Name: "random-tiles", Count: h.Fixed(200000, 5000000),
+				Name: "random-tiles", Count: h.Fixed(200000, 60000000),
 				Run: func(c *h.Ctx, idx uint64, r *h.Rand) {
 					t := randTile(r, 30)
 					c13tile(c, t, false, r)
@@ -386,7 +386,7 @@ func init() {
 				},
 			},
 			{
-				Name: "points", Count: h.Fixed(200000, 5000000),
+				Name: "points", Count: h.Fixed(200000, 60000000),
 				Run: func(c *h.Ctx, idx uint64, r *h.Rand) {
 					var p orb.Point
 					switch r.Intn(10) {
